@@ -264,7 +264,14 @@ def rule_winsert(rm):
     for bid in sorted(rm.family):
         b = prog.by_id[bid]
         callers = prog.callers.get(bid, set())
-        extra = [prog.by_id[x].name for x in callers if x not in allowed]
+        def home(x, depth=0):
+            # a closure belongs to the body that creates it (`with_builtins(|| Manager::new().register(..))`)
+            cb = prog.by_id[x]
+            while cb.is_closure and cb.j.get('parent') in prog.by_id and depth < 4:
+                cb = prog.by_id[cb.j['parent']]
+                depth += 1
+            return cb.id
+        extra = [prog.by_id[x].name for x in callers if x not in allowed and home(x) not in allowed]
         k2 = 'WINSERT|callers|%s' % b.name
         if extra:
             obs.append(bad('WINSERT', k2, 'registry writer %s is called from %s (only register_* and the built-in fillers may write)' % (b.name, extra), b.where(), body=b.name))
@@ -278,6 +285,12 @@ def rule_winsert(rm):
             continue
         key = 'WINSERT|passthrough|%s' % n
         ws = [c for c in e.live_calls if c.ruid in rm.family]
+        if len(ws) != 1:
+            # the writer may be called from a closure handed to a private helper (`with_builtins(|| ..register(..))`)
+            ev = prog.view(e, keep=lambda g: g.is_pub or g.id in rm.family, tag='api')
+            if ev is not e and len([c for c in ev.live_calls if c.ruid in rm.family]) == 1:
+                e = ev
+                ws = [c for c in e.live_calls if c.ruid in rm.family]
         if len(ws) != 1:
             obs.append(bad('WINSERT', key, '%s calls %d registry writers (expected 1)' % (n, len(ws)), e.where(), body=e.name))
             continue
@@ -345,6 +358,12 @@ def rule_wdisp(rm, em):
                         none_t = (bb, tb)
                     if v == 1:
                         some_t = (bb, tb)
+                # `if let Some(f) = ..` / `let Some(f) = .. else`: only one variant is listed, the other is `otherwise`
+                listed = [v for v, _ in t['targets']]
+                if listed == [1] and none_t is None:
+                    none_t = (bb, t['otherwise'])
+                if listed == [0] and some_t is None:
+                    some_t = (bb, t['otherwise'])
         from r_panic import edge_dominates
         problems = []
         if none_t is None:
